@@ -58,8 +58,11 @@ def schema_text(tmpl):
             '<xs:key name="K"><xs:selector xpath="%sk"/>%s</xs:key>'
             '<xs:unique name="U"><xs:selector xpath="%su"/>%s</xs:unique>'
             '<xs:keyref name="F" refer="%sK"><xs:selector xpath="%sf"/>%s</xs:keyref>'
-            '</xs:element></xs:sequence></xs:complexType></xs:element></xs:schema>'
-            % (row, row, row, px, fields, px, fields, px, px, fields))
+            '</xs:element>%s</xs:sequence></xs:complexType>%s</xs:element></xs:schema>'
+            % (row, row, row, px, fields, px, fields, px, px, fields,
+               # a key reference declared on the ancestor of the key's scope element (refer across levels)
+               '<xs:element name="fa" minOccurs="0" maxOccurs="unbounded">%s</xs:element>' % row if tmpl.get('cross') else '',
+               '<xs:keyref name="FA" refer="%sK"><xs:selector xpath="%sfa"/>%s</xs:keyref>' % (px, px, fields) if tmpl.get('cross') else ''))
 
 
 def render_row(tag, row, tmpl):
@@ -92,6 +95,8 @@ def render_doc(case):
             for row in g[tag]:
                 parts.append(render_row(tag, row, t))
         parts.append('</grp>')
+    for row in case.get('fa', []):
+        parts.append(render_row('fa', row, t))
     parts.append('</root>')
     return ''.join(parts)
 
@@ -112,7 +117,7 @@ def subject(case):
         valid = s.is_valid(xml)
     except Exception as e:  # noqa
         return {'exc': common.exc_class(e) + ': ' + str(e)[:200]}
-    counts = {'dup': 0, 'missing': 0, 'dangling': 0, 'id_dup': 0, 'idref': 0, 'other': 0}
+    counts = {'dup': 0, 'missing': 0, 'dangling': 0, 'dangling_root': 0, 'id_dup': 0, 'idref': 0, 'other': 0}
     other = []
     for e in errs:
         r = str(e.reason or '')
@@ -120,6 +125,8 @@ def subject(case):
             counts['dup'] += 1
         elif 'missing key field' in r:
             counts['missing'] += 1
+        elif 'not found for' in r and 'IDREF' not in r and (e.path or '').count('/') == 1:
+            counts['dangling_root'] += 1
         elif 'not found for' in r:
             counts['dangling'] += 1
         elif 'duplicated xs:ID' in r:
@@ -150,17 +157,18 @@ def model_term(case):
     idcode = {}
     for x in ids + refs:
         idcode.setdefault(x, len(idcode) + 1)
-    return ('(let errs := doc_errors %s in '
+    fa = coq_list([coq_tuple(tuple_of(r, t)) for r in case.get('fa', [])])
+    return ('(let ss := %s in let errs := doc_errors ss in let tables := map (fun s => qualified (s_key s)) ss in '
             '(length (filter (fun e => match e with Dup _ => true | _ => false end) errs), '
             'length (filter (fun e => match e with Missing _ => true | _ => false end) errs), '
             'length (filter (fun e => match e with Dangling _ => true | _ => false end) errs), '
-            'ids_ok %s %s))' % (coq_list(scopes), coq_list([coq_Z(idcode[x]) for x in ids]),
-                                coq_list([coq_Z(idcode[x]) for x in refs])))
+            'ids_ok %s %s, length (ancestor_keyref_errors tables %s), length (last_table_keyref_errors tables %s)))'
+            % (coq_list(scopes), coq_list([coq_Z(idcode[x]) for x in ids]), coq_list([coq_Z(idcode[x]) for x in refs]), fa, fa))
 
 
 def doc_ids(case):
     ids, refs = [], []
-    for g in case['groups']:
+    for g in list(case['groups']) + [{'k': [], 'u': [], 'f': case.get('fa', [])}]:
         for tag in ('k', 'u', 'f'):
             for row in g[tag]:
                 if row.get('id'):
@@ -176,8 +184,9 @@ def doc_ids(case):
     return ids, refs
 
 
-def spec_invalid(case):
-    """The property's conditions, computed independently of both implementation and model."""
+def spec_invalid(case, last_table=None):
+    """The property's conditions, computed independently of both implementation and model.
+    last_table: pass a list to collect the ancestor references that the last-instance rule of the code reports."""
     t = case['tmpl']
     reasons = []
     ids, refs = doc_ids(case)
@@ -200,6 +209,17 @@ def spec_invalid(case):
             x = tuple(tuple_of(r, t))
             if None not in x and x not in kq:
                 reasons.append('dangling keyref')
+    # key references declared on the ancestor: the referred table is the union of the scope instances' tables
+    # without the values present in more than one of them (XSD node-table propagation)
+    tables = [set(tuple(x) for x in (tuple_of(r, t) for r in g['k']) if None not in x) for g in case['groups']]
+    for r in case.get('fa', []):
+        x = tuple(tuple_of(r, t))
+        if None not in x:
+            n = sum(1 for tb in tables if x in tb)
+            if n != 1:
+                reasons.append('dangling ancestor keyref')
+            if last_table is not None and not (tables and x in tables[-1]):
+                last_table.append(x)
     return reasons
 
 
@@ -218,9 +238,19 @@ def evaluate(ctx, cases):
         ctx.count(('t', xml, json.dumps(c['tmpl'], sort_keys=True), c['version']), nontrivial=nrows >= 3)
         ctx.dist('spec_verdict', 'invalid:' + ','.join(sorted(set(reasons))) if reasons else 'valid')
         ctx.dist('fields', '%d %s' % (c['tmpl']['nf'], '/'.join(t.split(':')[1] for t in c['tmpl']['types'])))
-        ndup, nmiss, ndang, idsok = m
+        ndup, nmiss, ndang, idsok, nanc, nlast = m
         cnt = o['counts']
         problems = []
+        if c.get('fa'):
+            ctx.dist('ancestor keyref', 'spec %d dangling, last-table rule %d' % (min(nanc, 3), min(nlast, 3)))
+        # F-C08a: the code sees only the last scope instance's key table from an ancestor
+        others = [x for x in reasons if x != 'dangling ancestor keyref']
+        if c.get('fa') and len(c['groups']) >= 2 and nanc != nlast and cnt['dangling_root'] == nlast and not cnt['other'] \
+                and o['valid'] == (not others and nlast == 0) and (cnt['dup'], cnt['missing'], cnt['dangling']) == (ndup, nmiss, ndang):
+            ctx.known_finding('F-C08a')
+            continue
+        if cnt['dangling_root'] != nanc:
+            problems.append(('aux', 'dangling references of the ancestor keyref: impl=%d model=%d' % (cnt['dangling_root'], nanc)))
         if o['valid'] != (not reasons):
             problems.append(('primary', 'document is %s but the identity conditions say %s (%s)'
                              % ('accepted' if o['valid'] else 'rejected', 'valid' if not reasons else 'invalid',
@@ -267,7 +297,8 @@ def rand_tmpl(rng):
     nf = rng.choice([1, 1, 2, 2, 3])
     types = [rng.choice(TYPES) for _ in range(nf)]
     return {'nf': nf, 'types': types, 'onattr': [rng.random() < 0.7 for _ in range(nf)],
-            'tns': rng.random() < (0.7 if 'xs:QName' in types else 0.2), 'idel': rng.random() < 0.35}
+            'tns': rng.random() < (0.7 if 'xs:QName' in types else 0.2), 'idel': rng.random() < 0.35,
+            'cross': rng.random() < 0.35}
 
 
 def gen(ctx):
@@ -304,7 +335,18 @@ def gen(ctx):
                     src = rng.choice(g['k'])['cells']
                     r['cells'] = [c if c is None else _variant(rng, tm, j, c) for j, c in enumerate(src)]
             groups.append(g)
-        cases.append({'tmpl': tm, 'version': '1.1' if i % 2 else '1.0', 'groups': groups})
+        case = {'tmpl': tm, 'version': '1.1' if i % 2 else '1.0', 'groups': groups}
+        if tm.get('cross'):
+            fa = []
+            for _ in range(rng.choice([1, 1, 2, 3])):
+                r = rand_row(rng, tm, 0.1, ids=None)
+                g = rng.choice(groups)
+                if g['k'] and rng.random() < 0.8:
+                    src = rng.choice(g['k'])['cells']
+                    r['cells'] = [c if c is None else _variant(rng, tm, j, c) for j, c in enumerate(src)]
+                fa.append(r)
+            case['fa'] = fa
+        cases.append(case)
     return cases
 
 
